@@ -178,6 +178,16 @@ def one(ctx, shard, lk, fk, fwarm, D, R1, R2, method, uf, ws, vi, seed, x):
         ref = np.broadcast_to(lu, (R, lu.shape[1])) + np.broadcast_to(lf, (R, lf.shape[1]))
     ctx.close(site + ".value", got, ref, facts=facts)
     ctx.close(site + ".call_value", got2, ref, facts=facts, tol=1e-7)
+    # element-wise evaluation: point r for component r
+    with ctx.guard(site + ".elementwise", facts):
+        Rr = ref.shape[0]
+        xe = al.points(Rr, D, salt=R1 + 2 * R2)
+        lue, lfe = ref_eval(upar, xe), ref_eval(fpar, xe)
+        if method in ("multiply", "mul"):
+            refe = np.array([lue[k // R2, k] + lfe[k % R2, k] for k in range(Rr)])
+        else:
+            refe = np.array([lue[k if R1 > 1 else 0, k] + lfe[k if R2 > 1 else 0, k] for k in range(Rr)])
+        ctx.close(site + ".elementwise", np.asarray(res.evaluate_ln(J(xe), element_wise=True)), refe, facts=facts)
     if res.Sigma is not None:
         ctx.count("results_with_covariance")
     # the result is itself a measure: product() over its components evaluates to the product of all of them
